@@ -526,6 +526,7 @@ func TestVerifMatch(t *testing.T) {
 	n += vstrayTail(o)
 	n += vnearTies(o)
 	n += vbigDict(o)
+	n += vtokenRunes(o)
 	o.stat("match", map[string]interface{}{"match_cases": n})
 }
 
@@ -814,4 +815,38 @@ func vbigDict(o *vout) int {
 		}
 	}
 	return cnt
+}
+
+// vtokenRunes ties LC/Model/TokenRune.lean to v2/diff.go on the WHOLE domain: for every identifier
+// 0 … 0x10FFFF the Go functions equal the model's closed forms, and — what the theorems of
+// LC/Props/C02Runes.lean conclude — every identifier up to 0x10FFFF−0x800 survives
+// tokenRune → string → []rune → runeToken. Exhaustive enumeration of a finite domain.
+func vtokenRunes(o *vout) int {
+	what := ""
+	for id := 0; id <= 0x10FFFF && what == ""; id++ {
+		spec := id
+		if id >= 0xD800 {
+			spec = id + 0x800
+		}
+		if got := int(tokenRune(tokenID(id))); got != spec {
+			what = fmt.Sprintf("tokenRune(%#x) = %#x, model %#x", id, got, spec)
+			break
+		}
+		back := id
+		if id >= 0xE000 {
+			back = id - 0x800
+		}
+		if got := int(runeToken(rune(id))); got != back {
+			what = fmt.Sprintf("runeToken(%#x) = %#x, model %#x", id, got, back)
+			break
+		}
+		if id+0x800 <= 0x10FFFF {
+			rs := []rune(string([]rune{tokenRune(tokenID(id))}))
+			if len(rs) != 1 || int(runeToken(rs[0])) != id {
+				what = fmt.Sprintf("identifier %#x does not survive tokenRune -> string -> runeToken: %v", id, rs)
+			}
+		}
+	}
+	o.verdict("C02", "tokenrune", what == "", true, "tokenrune", map[string]interface{}{"what": what, "domain": 0x110000})
+	return 1
 }
